@@ -18,6 +18,7 @@ import (
 	"time"
 
 	"github.com/arloliu/go-secs/v2/hsms"
+	"github.com/arloliu/go-secs/v2/hsmsss"
 	"github.com/arloliu/go-secs/v2/secs2"
 	"pgregory.net/rapid"
 	"verif/harness/ev"
@@ -366,5 +367,55 @@ func TestC06QueueFullT3(t *testing.T) {
 			}
 			ev.Case(equip && sawT3, strings.Join(hist, "|")+fmt.Sprint(active, qsize), func() any { return hist }, "c06q:role:"+role)
 		})
+	})
+}
+
+// TestC06SysBytesWrap: System Bytes drawn by several goroutines at once while the generator crosses
+// its 32-bit wrap are pairwise distinct (uniqueness among open transactions is what lets a reply find
+// its sender). Uses the hooks that position the generator and draw from it as a send does.
+func TestC06SysBytesWrap(t *testing.T) {
+	ev.Rule("one connection object (never opened: only its System Bytes generator is used); 2-8 goroutines start together and draw 1-6 values each, the generator having been positioned 0-20 draws before its 32-bit wrap; oracle: all values drawn in one round are pairwise distinct; 40 rounds per case; non-trivial = the wrap falls inside the round and at least 2 goroutines draw")
+	vt.Check(t, 3000, 100000, func(rt *rapid.T) {
+		w, err := newWorld(worldOpt{active: false})
+		if err != nil {
+			rt.Fatalf("VERIF-INFRA: %v", err)
+		}
+		inner := hsmsss.VerifInner(w.conn)
+		g := rapid.IntRange(2, 8).Draw(rt, "goroutines")
+		per := rapid.IntRange(1, 6).Draw(rt, "drawsEach")
+		before := rapid.IntRange(0, 20).Draw(rt, "beforeWrap")
+		for round := 0; round < 40; round++ {
+			if !hsms.VerifSeedSystemBytes(inner, 0xFFFFFFFF-uint32(before)) {
+				rt.Fatalf("VERIF-INFRA: hook does not reach the connection")
+			}
+			got := make([][]uint32, g)
+			start := make(chan struct{})
+			var wg sync.WaitGroup
+			for i := 0; i < g; i++ {
+				wg.Add(1)
+				go func(i int) {
+					defer wg.Done()
+					<-start
+					for k := 0; k < per; k++ {
+						v, _ := hsms.VerifDrawSystemBytes(inner)
+						got[i] = append(got[i], v)
+					}
+				}(i)
+			}
+			close(start)
+			wg.Wait()
+			seen := map[uint32]int{}
+			for i := range got {
+				for _, v := range got[i] {
+					seen[v]++
+					if seen[v] > 1 {
+						rt.Fatalf("C06 violated: System Bytes %08x were handed out %d times to %d goroutines drawing %d values each across the 32-bit wrap (generator positioned %d draws before it, round %d): two open transactions would share them", v, seen[v], g, per, before, round)
+					}
+				}
+			}
+		}
+		ev.Case(before < g*per, fmt.Sprint(g, per, before), func() any {
+			return fmt.Sprintf("%d goroutines x %d draws, %d draws before the wrap", g, per, before)
+		}, "c06w")
 	})
 }
